@@ -207,6 +207,9 @@ def compare(rec, fam):
             # an independent tracker inside the harness judged the real code's behaviour against the property
             fails.append((owner[i], i, "! FAIL " + im[im.index(" ORACLE-FAIL:") + 13:]))
             im = im[:im.index(" ORACLE-FAIL:")]
+        if " MIXED-DISAGREE:" in im:
+            # C20: one entry point of the timestamp type (mixed u32 form, partial_cmp, set) disagrees with the others
+            fails.append((owner[i], i, "! FAIL entry-points-disagree " + im[im.index(" MIXED-DISAGREE:") + 16:]))
         if " ALLOC-EXCEEDED" in im:
             fails.append((owner[i], i, "! FAIL allocation " + im[im.index(" ALLOC-EXCEEDED"):]))
             im = im[:im.index(" ALLOC-EXCEEDED")]
